@@ -4,8 +4,14 @@ type EventFn[T any] func(data T)
 
 type Unsubscribe func()
 
+type subscription[T any] struct {
+	id uint64
+	fn EventFn[T]
+}
+
 type Event[T any] struct {
-	subscribers []EventFn[T]
+	subscribers []subscription[T]
+	nextID      uint64
 }
 
 func New[T any]() *Event[T] {
@@ -13,11 +19,19 @@ func New[T any]() *Event[T] {
 }
 
 // Adds a subscriber to the event.
+// The returned function removes exactly this subscriber, no matter which other
+// subscribers were added or removed in the meantime. Calling it again is a no-op.
 func (e *Event[T]) Subscribe(fn EventFn[T]) Unsubscribe {
-	index := len(e.subscribers)
-	e.subscribers = append(e.subscribers, fn)
+	e.nextID++
+	id := e.nextID
+	e.subscribers = append(e.subscribers, subscription[T]{id: id, fn: fn})
 	return func() {
-		e.subscribers = append(e.subscribers[:index], e.subscribers[index+1:]...)
+		for i, sub := range e.subscribers {
+			if sub.id == id {
+				e.subscribers = append(e.subscribers[:i:i], e.subscribers[i+1:]...)
+				return
+			}
+		}
 	}
 }
 
@@ -26,6 +40,6 @@ func (e *Event[T]) Subscribe(fn EventFn[T]) Unsubscribe {
 // so be aware of potential race conditions.
 func (e *Event[T]) Fire(data T) {
 	for _, subscriber := range e.subscribers {
-		go subscriber(data)
+		go subscriber.fn(data)
 	}
 }
